@@ -132,6 +132,24 @@ func RunSched(r *Run, spec SchedSpec) *vsync.Stats {
 	}
 	// findings -> violations (deduplicated by kind + first line)
 	for _, f := range total.Findings {
+		if f.Kind == "stuck" {
+			// a watchdog timeout may be the machine, not the code: the schedule is run once more in a fresh worker and
+			// only counts if it is stuck again
+			again := pool.Do([]json.RawMessage{mk(schedTask{Prefix: f.Choices, Single: true})}, nil)
+			sr, ok := decode(again[0])
+			confirmed := false
+			if ok {
+				for _, f2 := range sr.Stats.Findings {
+					if f2.Kind == "stuck" {
+						confirmed = true
+					}
+				}
+			}
+			if !confirmed {
+				r.Cap(fmt.Sprintf("%s: one execution ran into the real-time watchdog and finished when it was run again (choices %v)", spec.Name, f.Choices))
+				continue
+			}
+		}
 		first := f.What
 		if i := strings.Index(first, "\n"); i > 0 {
 			first = first[:i]
